@@ -253,7 +253,7 @@ def run(prog, rep):
     guarded(rep, "C01.R5", "crate::wrap::wrap", lambda: _r5(prog, rep))
     # R7: imported lemmas
     # the word list is a contiguous, lossless cover of the line (C11, C12) and the arrangement a partition of it (C06)
-    need = ["DISPATCH", "C06.R2", "C11.R1", "C11.R3", "C11.R9", "C12.R1", "C12.R2", "C12.R3", "C12.R4", "C12.R5", "C12.R6", "C12.R7",
+    need = ["C04.WRAPPATH", "DISPATCH", "C06.R2", "C11.R1", "C11.R3", "C11.R9", "C12.R1", "C12.R2", "C12.R3", "C12.R4", "C12.R5", "C12.R6", "C12.R7",
             "C12.R8", "C12.R9"]
     if has_feature(prog, "smawk"):
         need.append("C06.R3")
